@@ -34,7 +34,8 @@ AMT_CHOICES = [0.5, 3.5, 10.0, 25.0, 100.0]
 ID_POOL = [1, 2, 3, 5, 7, 9, 10, 11, 12, 20, 21, 100, 101, 999, 1000]
 
 # constructs for which a finding is (or may be) listed: clean datasets contain none of them
-CONSTRUCTS = ["idname", "unsorted", "intcols", "single_obs", "single_dose", "reset", "first_tie", "nonmem"]
+CONSTRUCTS = ["idname", "unsorted", "intcols", "single_obs", "single_dose", "reset", "first_tie", "nonmem", "nocov",
+              "admid_nocentral", "single_record"]
 
 
 def _is_nan(x):
@@ -52,7 +53,7 @@ def choose_profile(rng, idx):
     if r < 17:
         return "one", [CONSTRUCTS[(idx // 20 + r) % len(CONSTRUCTS)]]
     k = rng.randint(2, 4)
-    return "wild", sorted(rng.sample([c for c in CONSTRUCTS if c != "nonmem"], k))
+    return "wild", sorted(rng.sample([c for c in CONSTRUCTS if c not in ("nonmem", "single_record")], k))
 
 
 def gen_spec(rng, idx, tier):
@@ -75,6 +76,8 @@ def _gen_spec(rng, profile, constructs, accept_any=False):
     base = rng.choice(["iv", "oral", "oral", "ivoral", "ivoral", "ivoral_transit"])
     if "nonmem" in cons:
         base = "ivoral"
+    if "admid_nocentral" in cons:
+        base = "oral"
     info = BASE_INFO[base]
 
     # ---- which columns exist
@@ -92,7 +95,13 @@ def _gen_spec(rng, profile, constructs, accept_any=False):
     if "nonmem" in cons:
         has_cmt = False
         has_dose = True
-    n_cov = rng.choice([0, 1, 1, 2, 2, 3])
+    if "admid_nocentral" in cons:
+        # an admid column, no compartment column, and a structural model whose central compartment gets no dose
+        has_dose = has_admid = True
+        has_cmt = False
+    elif has_admid and not has_cmt and info["central"] not in info["dosing"]:
+        has_admid = False
+    n_cov = 0 if "nocov" in cons else rng.choice([1, 1, 2, 2, 3])
     decoys = rng.random() < 0.2  # dropped columns with a role type and misleading content
 
     names = {
@@ -116,7 +125,7 @@ def _gen_spec(rng, profile, constructs, accept_any=False):
         # integer ids are the norm; kept out of clean ADDL datasets only (see construct "intcols")
         int_able = {"id"} | {c for c in ["event", "mdv", "compartment", "ss", "admid"] if rng.random() < 0.3}
     if "intcols" in cons:
-        has_addl = has_ii = True
+        has_dose = has_addl = has_ii = True
         cand = ["id", "event", "mdv", "compartment", "additional", "ss", "admid"]
         int_able = {"id"} | {c for c in cand if rng.random() < 0.5}
         if rng.random() < 0.2:
@@ -124,6 +133,8 @@ def _gen_spec(rng, profile, constructs, accept_any=False):
 
     # ---- individuals
     n_ind = rng.choice([1, 2, 2, 3, 3, 4, 5, 6])
+    if "single_record" in cons:
+        n_ind = 1
     ids = rng.sample(ID_POOL, n_ind)
     if "unsorted" in cons:
         if n_ind < 2:
@@ -138,9 +149,12 @@ def _gen_spec(rng, profile, constructs, accept_any=False):
     routes = sorted(info["dosing"].items())  # [(cmt, admid)]
     allow_reset = "reset" in cons
     recs = []  # list of dict role -> value, plus kind
+    # a few datasets have one long individual (18-30 records): sorting more than 16 rows is where an unstable sort shows
+    long_subj = rng.choice(ids) if rng.random() < 0.05 else None
     for subj in ids:
         recs.extend(_gen_individual(rng, subj, routes, info, has_dose, has_evid, has_mdv, has_addl, has_ss, has_ii,
-                                    has_rate, allow_reset, force_first_tie=("first_tie" in cons and subj != ids[0])))
+                                    has_rate, allow_reset, force_first_tie=("first_tie" in cons and subj != ids[0]),
+                                    long=(subj == long_subj)))
 
     # ---- pruning constructs
     if "single_obs" in cons:
@@ -159,11 +173,24 @@ def _gen_spec(rng, profile, constructs, accept_any=False):
         for r in recs:
             if r["kind"] in ("dose", "rdose"):
                 if seen:
-                    continue
+                    if r["kind"] == "dose":
+                        continue
+                    # a reset-and-dose record keeps its reset (the clock may restart there)
+                    r = dict(r, kind="reset", evid=3.0, amt=0.0, addl=0.0, ii=0.0, ss=0.0, rate=0.0)
                 seen = True
             out.append(r)
         recs = out
+    if "single_record" in cons:
+        recs = [r for r in recs if r["kind"] == "obs"][:1]
     if not recs:
+        return None
+    # validity: within an individual time never runs backwards except at a reset record
+    last = {}
+    for r in recs:
+        if r["kind"] not in ("reset", "rdose") and r["id"] in last and r["t"] < last[r["id"]]:
+            raise AssertionError("generator produced a non-chronological dataset")
+        last[r["id"]] = r["t"]
+    if len(recs) < 2 and "single_record" not in cons and not accept_any:
         return None
     n_obs = sum(1 for r in recs if r["kind"] == "obs")
     n_dose = sum(1 for r in recs if r["kind"] in ("dose", "rdose"))
@@ -172,9 +199,9 @@ def _gen_spec(rng, profile, constructs, accept_any=False):
             return None
         if "single_dose" in cons and has_dose and n_dose != 1:
             return None
-        if "single_obs" not in cons and n_obs < 2:
+        if "single_obs" not in cons and "single_record" not in cons and n_obs < 2:
             return None
-        if "single_dose" not in cons and has_dose and n_dose < 2:
+        if "single_dose" not in cons and "single_record" not in cons and has_dose and n_dose < 2:
             return None
         if "reset" in cons and not any(r["kind"] in ("reset", "rdose") for r in recs):
             return None
@@ -241,6 +268,9 @@ def _gen_spec(rng, profile, constructs, accept_any=False):
     for cn in cov_names:
         cols.append((cn, "covariate", cov_cols[cn]))
     cols.append(("REC", "unknown", [float(1001 + i) for i in range(len(recs))]))
+    if names["id"] != "ID" and rng.random() < 0.35:
+        # a column that happens to be called ID but is not the subject identifier (e.g. a site number)
+        cols.append(("ID", "unknown", [1.0 for _ in recs]))
     dropped = set()
     if decoys and "nonmem" not in cons:
         # dropped columns are "barred from being used": typed like a role column but with misleading content
@@ -278,8 +308,8 @@ def _gen_spec(rng, profile, constructs, accept_any=False):
 
 
 def _gen_individual(rng, subj, routes, info, has_dose, has_evid, has_mdv, has_addl, has_ss, has_ii, has_rate,
-                    allow_reset, force_first_tie):
-    n = rng.choice([1, 2, 3, 3, 4, 4, 5, 6, 7, 8])
+                    allow_reset, force_first_tie, long=False):
+    n = rng.randint(18, 30) if long else rng.choice([1, 2, 3, 3, 4, 4, 5, 6, 7, 8])
     t = rng.choice([0.0, 0.0, 0.0, 0.5, 1.0, 10.0])
     out = []
     last_admid = routes[0][1]
@@ -403,6 +433,11 @@ def _features(recs, names, base, has_cmt, ids_present, int_able, dropped, has_ev
         f.add("ss")
     if len({r["cmt"] for r in recs if r["kind"] in ("dose", "rdose")}) > 1:
         f.add("two-routes")
+    per_id = {}
+    for r in recs:
+        per_id[r["id"]] = per_id.get(r["id"], 0) + 1
+    if max(per_id.values()) > 16:
+        f.add("long-individual")
     # ties between a dose and an observation, in both orders
     for a, b in zip(recs, recs[1:]):
         if a["id"] == b["id"] and a["t"] == b["t"]:
@@ -510,7 +545,11 @@ def ref_doseid(v: View):
                 out[i] = (nd, "dose")
                 continue
             ties = [j for j in idxs if v.is_dose(j) and seg[j] == seg[i] and times[j] == times[i]]
-            if not ties:
+            if any(v.is_dose(j) and seg[j] != seg[i] and times[j] == times[i] for j in idxs):
+                # the clock value coincides with a dose on the other side of a reset: whether that is "the same
+                # time point" is not documented
+                out[i] = (None, "same-clock-value-as-dose-across-a-reset")
+            elif not ties:
                 out[i] = (nd, "plain")
             elif not v.is_obs(i):
                 out[i] = (None, "non-observation-tied-with-dose")
@@ -519,7 +558,7 @@ def ref_doseid(v: View):
             elif ties[0] > i:
                 out[i] = (nd, "tie-obs-before-dose")
             elif ss[ties[0]] > 0:
-                out[i] = (None, "tie-with-ss-dose")
+                out[i] = (nd, "tie-with-ss-dose")  # code comment + DESIGN guard: a steady-state dose keeps the group
             elif nd == 1:
                 out[i] = (None, "tie-with-first-dose")  # there is no previous dose: 0 or 1, docs silent
             else:
@@ -565,6 +604,9 @@ def ref_tad(v: View):
         if v.kinds[i] == "reset":
             out[i] = (None, "reset-record")
             continue
+        if any(ids[e[0]] == ids[i] and e[3] != seg[i] and e[2] == t for e in events):
+            out[i] = (None, "same-clock-value-as-dose-across-a-reset")
+            continue
         if not v.is_obs(i):
             if at_t:
                 out[i] = (None, "non-observation-tied-with-dose")
@@ -576,7 +618,7 @@ def ref_tad(v: View):
         if len(at_t) > 1:
             out[i] = (None, "several-doses-at-the-time-of-the-observation")
         elif at_t_before and ss[at_t_before[0][0]] > 0:
-            out[i] = (None, "tie-with-ss-dose")
+            out[i] = (0.0, "tie-with-ss-dose")  # the observation stays in the group of the steady-state dose
         elif not earlier:
             out[i] = (None, "tie-with-first-dose" if at_t_before else "no-dose-yet")
         else:
@@ -592,6 +634,11 @@ def ref_admid(v: View):
     for _, idxs in v.individuals():
         last = None
         for i in idxs:
+            if not v.has("event") and v.kinds[i] in ("mobs", "other"):
+                # without an event column nothing says whether an MDV=1, AMT=0 record is a dose-type event
+                out[i] = (None, "event-type-undocumented-without-event-column")
+                last = None
+                continue
             if v.is_dose(i):
                 if cmt is not None:
                     a = dosing.get(int(cmt[i]))
@@ -682,6 +729,9 @@ def _copy_spec(spec):
 def neutral_idname(spec):
     s = _copy_spec(spec)
     for c in s["columns"]:
+        if c["name"] == "ID" and c["type"] != "id":
+            c["name"] = "SITE"
+    for c in s["columns"]:
         if c["type"] == "id" and not c["drop"]:
             c["name"] = "ID"
     return s
@@ -717,6 +767,34 @@ def neutral_segment_times(spec):
     j = v.colnames.index(v.role["idv"])
     for i, r in enumerate(s["rows"]):
         r[j] = type(r[j])(r[j] + 10000 * seg[i])
+    return s
+
+
+def neutral_evid4(spec):
+    """Reset-and-dose records (EVID 4) become plain dose records (EVID 1)."""
+    s = _copy_spec(spec)
+    v = View(s)
+    j = v.colnames.index(v.role["event"]) if v.has("event") else None
+    for i, k in enumerate(s["kinds"]):
+        if k == "rdose":
+            s["kinds"][i] = "dose"
+            if j is not None:
+                s["rows"][i][j] = type(s["rows"][i][j])(1)
+    return s
+
+
+def neutral_untie(spec):
+    """Make the times of each individual strictly increasing in file order (adds 0.01 h per record; the grid is
+    0.5 h, so no new tie with an explicit or implied dose can appear)."""
+    s = _copy_spec(spec)
+    v = View(s)
+    j = v.colnames.index(v.role["idv"])
+    for _, idxs in v.individuals():
+        for pos, i in enumerate(idxs):
+            s["rows"][i][j] = float(s["rows"][i][j]) + 0.01 * pos
+    for c in s["columns"]:
+        if c["name"] == v.role["idv"]:
+            c["dtype"] = "float64"
     return s
 
 
